@@ -12,6 +12,7 @@ import PjVerif.Lemmas.SchedC08
 import PjVerif.Lemmas.SchedC08Removal
 import PjVerif.Props.Witness
 import PjVerif.Lemmas.ScheduleSrc
+import PjVerif.Lemmas.PassSrc
 namespace Pj
 
 /-- with balancing on, every day from a leaf's release day up to (excluding) its last work day is fully booked on
@@ -112,5 +113,23 @@ theorem C08_source_shift_forward (fuel : Nat) (cal : Cal) (b : Bool) (rows : Lis
       (shiftFwd cal (SchedSrc.usedOf rows r t b) start left).map
         (fun p => (p.1, (rows ++ p.2.map (mkRow r t)).map SchedSrc.encRow)) :=
   SchedSrc.interpShiftFwd_eq fuel cal b rows r t start left hf
+
+/-! ### the tie of the recursive forward pass to the current source, by translation
+
+`tools/extract_pass.py` translates `ForwardScheduler.__forward_pass` (schedule.py) into a PyLite term on every run
+(Extracted/PassSrc.lean); a third evaluator of PyLite runs it on an object store: task attributes as mutable slots, the
+`calculated` list, the resource table with `setdefault`, the scripted clock, the ledger, recursion with fuel; the two calls
+of the inner-loop methods run the translated source of 12.6b.  The theorem: interpreting the translated method on the
+encoding of a model state is the encoding of the model's `fwdPass` - unless the model run ends in RecursionError (fuel
+exhausted or a task met again while in progress: a check Python does not have; excluded for real inputs by C14).  `ms` is
+the tasks' own milestone flag; `hms` says the model's flag is the effective one (flagged and childless). -/
+
+theorem C08_source_forward_pass (env : Env) (ms : Uid → Bool) (wfuel : Nat)
+    (hms : ∀ u, (env.info u).milestone = (ms u && (env.info u).children.isEmpty))
+    (hw : Extracted.fwdShiftMaxSteps < wfuel) (fuel fuel' : Nat) (hle : fuel ≤ fuel') (stk : List Uid) (σ : SS)
+    (t : Uid) (minDate : Time) (hne : fwdPass env fuel stk σ t minDate ≠ .error (.crash .recursion)) :
+    PassSrc.interpFwdPass env wfuel (PassSrc.calRef σ.res) fuel' (PassSrc.encS env ms σ) t minDate =
+      (fwdPass env fuel stk σ t minDate).map (PassSrc.encS env ms) :=
+  PassSrc.interpFwdPass_eq env ms wfuel hms hw fuel fuel' hle stk σ t minDate hne
 
 end Pj
